@@ -5,7 +5,7 @@ grep -v '^#' tools/mutants.txt | while IFS='|' read -r PID F EXPR; do
   [ -z "$PID" ] && continue
   OUT=$(tools/try_sed.sh "$PID" "$F" "$EXPR" 2>&1)
   if echo "$OUT" | grep -q "DID NOT CHANGE"; then R=NOCHANGE
-  elif echo "$OUT" | grep -q "[1-9][0-9]* violation"; then R=CAUGHT
+  elif echo "$OUT" | grep -q "^  C[0-9][0-9]\.\|[1-9][0-9]* violation"; then R=CAUGHT
   else R=MISSED; fi
   echo "$R $PID $F :: $(echo "$OUT" | grep '^+' | head -1 | cut -c1-100)"
 done
